@@ -21,12 +21,14 @@
         allocated *after* the then-block; else-block;
       - `block` / `block_expr` / `stmt`; `assign` (value → fresh temporary →
         variable); `compound_assign` (desugared to `x = x op e`, i.e. the
-        target is cloned into a temporary *before* `e` is lowered);
+        target is cloned into a temporary *before* `e` is lowered); both also with a
+        field `x.f` as the target (a `Place` with a projection);
       - `return`; `while` (examinee temporary allocated first, condition
         re-evaluated on every iteration).
       - `Option.Some(e)` (`enum_constructor` + `make_enum`), `Option.None`,
         `accept e` / `reject e` (the operand stays lazy until `make_enum` stores
-        it), `e?` (`question_mark`); record literals (`record`) and field access (`access`);
+        it), `e?` (`question_mark`); record literals (`record`: fields lowered, stored and
+        moved in in WRITTEN order, each to the field it names) and field access (`access`);
       - script-function calls (`Value::Call`; the callee's structured MIR runs from a store
         holding its parameters);
       - list literals (`list`; lists are shared handles and this model has no heap: the `push`
